@@ -1,0 +1,30 @@
+//go:build !verif
+
+package simhook
+
+import "net"
+
+// Enabled reports whether the simulation hooks are compiled in.
+const Enabled = false
+
+// Enter names the calling goroutine's role. No-op without the "verif" build tag.
+func Enter(string) {}
+
+// Yield marks an interleaving point. No-op without the "verif" build tag.
+func Yield(string) {}
+
+// Poll marks an interleaving point inside a loop that has no blocking call of its own. No-op
+// without the "verif" build tag.
+func Poll(string) {}
+
+// Acquire announces the intent to take the lock identified by id. No-op without the "verif"
+// build tag.
+func Acquire(interface{}, string) {}
+
+// Release announces that the lock identified by id has been released. No-op without the "verif"
+// build tag.
+func Release(interface{}, string) {}
+
+// Dial lets a simulator provide the connection for network/addr; it always returns nil without
+// the "verif" build tag, meaning "dial for real".
+func Dial(string, string) net.Conn { return nil }
